@@ -723,13 +723,20 @@ Depth1 ==
     \o [i \in 1 .. NL |-> AB(Lf(i), Lf(i + 5), <<"b">>)]
     \o [i \in 1 .. NL |-> AB(Lf(i + 3), Lf(i), IF i % 2 = 0 THEN <<>> ELSE <<"a", "b">>)]
     \o <<Tup(<<Lf(6), Lf(13), Lf(8)>>), Tup(<<Lf(15)>>)>>
-Depth2 ==
-    [i \in 1 .. NS |-> Arr(Arr(Sm(i), 0, 2), 0, 2)]
-    \o [i \in 1 .. NS |-> Arr(Tup(<<Sm(i), Sm(i + 1)>>), 1, 2)]
-    \o [i \in 1 .. NS |-> Arr(AB(Sm(i), Sm(i + 2), <<"b">>), 0, 2)]
-    \o [i \in 1 .. NS |-> Tup(<<Arr(Sm(i), 0, 2), Sm(i + 3)>>)]
-    \o [i \in 1 .. NS |-> AB(Arr(Sm(i), 1, 2), Tup(<<Sm(i + 1), Sm(i + 4)>>), <<"b">>)]
-    \o [i \in 1 .. NS |-> Stc(<<M("s", AB(Sm(i), Sm(i + 1), <<"b">>)), M("k", Sm(i + 2))>>, <<"s">>)]
+Depth2N(ns) ==
+    [i \in 1 .. ns |-> Arr(Arr(Sm(i), 0, 2), 0, 2)]
+    \o [i \in 1 .. ns |-> Arr(Tup(<<Sm(i), Sm(i + 1)>>), 1, 2)]
+    \o [i \in 1 .. ns |-> Arr(AB(Sm(i), Sm(i + 2), <<"b">>), 0, 2)]
+    \o [i \in 1 .. ns |-> Tup(<<Arr(Sm(i), 0, 2), Sm(i + 3)>>)]
+    \o [i \in 1 .. ns |-> AB(Arr(Sm(i), 1, 2), Tup(<<Sm(i + 1), Sm(i + 4)>>), <<"b">>)]
+    \o [i \in 1 .. ns |-> Stc(<<M("s", AB(Sm(i), Sm(i + 1), <<"b">>)), M("k", Sm(i + 2))>>, <<"s">>)]
+Depth2 == Depth2N(NS)
+Depth1Quick ==
+    [i \in 1 .. NL |-> Arr(Lf(i), 0, 2)] \o [i \in 1 .. NL \div 2 |-> Arr(Lf(2 * i), 1, 3)]
+    \o [i \in 1 .. NL |-> Tup(<<Lf(i), Lf(i + 1)>>)]
+    \o [i \in 1 .. NL |-> AB(Lf(i), Lf(i + 5), <<"b">>)]
+    \o [i \in 1 .. NL \div 2 |-> AB(Lf(2 * i + 3), Lf(2 * i), IF i % 2 = 0 THEN <<>> ELSE <<"a", "b">>)]
+    \o <<Tup(<<Lf(6), Lf(13), Lf(8)>>), Tup(<<Lf(15)>>)>>
 AllPairs == [i \in 1 .. NL * NL |-> Tup(<<Lf(((i - 1) \div NL) + 1), Lf(((i - 1) % NL) + 1)>>)]
 Depth3 ==
     [i \in 1 .. NS |-> Arr(Arr(Arr(Sm(i), 0, 2), 1, 2), 0, 2)]
@@ -739,7 +746,7 @@ Depth3 ==
 
 
 BaseSeq(tier) == CASE tier = "mc" -> Leaves \o SubSeq(Depth1, 1, 2 * NL)
-                   [] tier = "quick" -> Leaves \o Depth1 \o Depth2
+                   [] tier = "quick" -> Leaves \o Depth1Quick \o Depth2N(4)
                    [] tier = "thorough" -> Leaves \o Depth1 \o Depth2 \o AllPairs \o Depth3
 
 (* types for compatibility pairs: nested, overlapping and disjoint value sets of every kind *)
